@@ -366,10 +366,10 @@ class Plane:
             plane.amplitude = lentil.rescale(plane.amplitude, scale=scale, shape=None,
                                                 mask=support, order=3, mode='nearest',
                                                 unitary=False)/scale
-        elif plane._mask.ndim > 1:
-            # a constant amplitude over a mask array: the mask covers scale**2
-            # times as many samples, so the constant is scaled like an
-            # amplitude array to preserve total power
+        elif plane._mask.ndim > 1 or plane.opd.ndim > 1:
+            # a constant amplitude over a mask array (or over the extent of an
+            # OPD map): it covers scale**2 times as many samples, so the
+            # constant is scaled like an amplitude array to preserve total power
             plane.amplitude = plane.amplitude/scale
 
         if plane.opd.ndim > 1:
